@@ -87,8 +87,18 @@ func sockName(prefix, tag string) string {
 	return fmt.Sprintf("%s%s%d.sock", prefix, tag, atomic.AddInt64(&sockSeq, 1))
 }
 
-// FreePort returns a TCP (or UDP) port that was free a moment ago.
+// FreePort returns a TCP (or UDP) port that was free a moment ago. Ports 41000-41999 are never
+// returned: the repository's own tests use fixed ports in that range.
 func FreePort(udp bool) int {
+	for {
+		p := freePort(udp)
+		if p < 40900 || p > 42100 {
+			return p
+		}
+	}
+}
+
+func freePort(udp bool) int {
 	if udp {
 		pc, err := net.ListenPacket("udp", "127.0.0.1:0")
 		if err != nil {
